@@ -24,18 +24,45 @@ def log(*a):
 
 
 class Lock:
+    """Inter-process lock (flock) that is re-entrant within one process: nested `with Lock(name)`
+    blocks of the same process do not dead-lock."""
+    _held = {}          # name -> [file object, depth]
+    _mutex = None
+
     def __init__(self, name):
         os.makedirs(BUILD, exist_ok=True)
+        self.name = name
         self.path = os.path.join(BUILD, name + ".lock")
 
     def __enter__(self):
-        self.f = open(self.path, "w")
-        fcntl.flock(self.f, fcntl.LOCK_EX)
+        import threading
+        if Lock._mutex is None:
+            Lock._mutex = threading.RLock()
+        key = (self.name, threading.get_ident())
+        with Lock._mutex:
+            ent = Lock._held.get(key)
+            if ent:
+                ent[1] += 1
+                return self
+        f = open(self.path, "w")
+        fcntl.flock(f, fcntl.LOCK_EX)
+        with Lock._mutex:
+            Lock._held[key] = [f, 1]
         return self
 
     def __exit__(self, *a):
-        fcntl.flock(self.f, fcntl.LOCK_UN)
-        self.f.close()
+        import threading
+        key = (self.name, threading.get_ident())
+        with Lock._mutex:
+            ent = Lock._held.get(key)
+            if not ent:
+                return
+            ent[1] -= 1
+            if ent[1] > 0:
+                return
+            del Lock._held[key]
+        fcntl.flock(ent[0], fcntl.LOCK_UN)
+        ent[0].close()
 
 
 def run(cmd, cwd=None, env=None, timeout=None, input=None):
@@ -230,10 +257,14 @@ def correspond(cases):
 
 def load_findings():
     p = os.path.join(VERIF, "known_findings.json")
-    try:
-        return json.load(open(p))
-    except FileNotFoundError:
-        return {"findings": [], "fixed": []}
+    for attempt in range(6):
+        try:
+            return json.load(open(p))
+        except FileNotFoundError:
+            return {"findings": [], "fixed": []}
+        except json.JSONDecodeError:
+            time.sleep(0.5)          # somebody is rewriting the file right now
+    return json.load(open(p))
 
 
 def finding_for(prop, sig):
@@ -413,7 +444,8 @@ def phase_suite(res, suite, seed, count, corpus=None, name=None, extra_args=()):
     if bad:
         c, r = bad[0]
         res.broken_tie(name, {"disagreements": len(bad), "of": n, "first": {"req": c["req"], "impl": c["impl"], "model": r}})
-    res.extra.setdefault("correspondence", {})[suite] = {"compared": n, "disagreements": len(bad), "cases": len(cases)}
+    cs = res.extra.setdefault("correspondence", {}).setdefault(suite, {"compared": 0, "disagreements": 0, "cases": 0})
+    cs["compared"] += n; cs["disagreements"] += len(bad); cs["cases"] += len(cases)
     return len(bad), newfail
 
 
